@@ -15,6 +15,19 @@ def run(chk):
                        'outside the manager block (covered by the C17 inventory).')
     inits.rule_reset(chk, P, 'I')
     inits.rule_handlers(chk, P, 'I5a', 'I5b', 'I5c')
+    # a manager re-initialised to another variant records that variant: architecture and type number are what later calls dispatch on
+    i8 = chk.rule('I8', 'each variant init records its own architecture and type number (used_arch / used_arch_type)', floor=9)
+    for tu in P.variant_tus():
+        m = inits.VARIANT_RE.match(tu)
+        if not m:
+            continue
+        f = inits.init_func(P, tu)
+        want = {'used_arch': P.enum('IMB_ARCH_' + m.group(1).upper()), 'used_arch_type': int(m.group(2))}
+        for b, i, ev in f.events(('assign',)):
+            l = cf.strip_casts(ev['lhs'])
+            if l.get('k') == 'mem' and l['f'] in want:
+                i8.check(cf.evalc(ev.get('rhs') or {}) == want[l['f']], '%s:%s' % (tu.split('__')[0], l['f']), ev['loc'],
+                         '%s records %s = %s in variant %s_t%s' % (f.name, l['f'], cf.render(ev.get('rhs')) if ev.get('rhs') else '?', m.group(1), m.group(2)))
     # the ring itself is not cleared by init: whoever fills a slot inside the library (the init-time self-tests) must define every field
     # group it uses, or the previous job of the slot decides what the new manager does
     from . import c20
